@@ -5,6 +5,7 @@ from ..util import KIND
 from ..refmodel import ref_predict
 
 PROPERTY = "C12"
+TECHNIQUE = "runtime monitoring: reference-model monitor (mpmath closed forms) on the three predict operations"
 LEVEL = "exploration"
 RULE = ("Every number returned by the real predict_win / predict_rank / predict_draw is compared with an independent "
         "40-digit mpmath evaluation of the forms quoted in the property (two-team form with N*beta^2, n-team form with "
